@@ -70,7 +70,10 @@ func selector(name string) func(x, y int) bool {
 	}
 }
 
-type vio struct{ sig, what string }
+type vio struct {
+	sig, what string
+	dup       bool // the same worker has reported this signature before: not formatted, not reported again
+}
 
 // stats of one executed case / work unit (plain fields, owned by one goroutine)
 type stats struct {
@@ -80,9 +83,11 @@ type stats struct {
 	resetNR    [3]int64 // Reset on a non-resettable input: error / nil / panic (not judged)
 	maxAhead   int64
 	selCalls   int64
-	srcPulls   int64
 	closeErr   int64
 	intitCalls int64
+	seen       map[string]int // signatures reported by this worker (nil: report everything)
+	repeats    int64
+	lateResets int64
 }
 
 func (s *stats) merge(o *stats) {
@@ -94,9 +99,10 @@ func (s *stats) merge(o *stats) {
 	s.exhausted += o.exhausted
 	s.maxAhead = max(s.maxAhead, o.maxAhead)
 	s.selCalls += o.selCalls
-	s.srcPulls += o.srcPulls
 	s.closeErr += o.closeErr
 	s.intitCalls += o.intitCalls
+	s.repeats += o.repeats
+	s.lateResets += o.lateResets
 }
 
 // ---------------------------------------------------------------------------------------------
@@ -187,14 +193,16 @@ func (s *sliceSrc[E]) Reset() error { s.i = 0; return nil }
 // probe is the source-protocol monitor around one input of a mixer. It has no Reset method; probeR
 // adds it. A pass is the time between two Reset calls made by the harness on the outermost mixer.
 type probe[E any] struct {
-	name    string
-	inner   iterable.Iterator[E]
-	n       int     // number of elements of the input
-	pos     int     // position of the element the next successful Next hands out
-	handed  []uint8 // how often position p was handed out in this pass
-	pulls   int     // successful Next calls in this pass
-	inReset bool    // the harness is inside Reset of the outermost mixer
-	bad     string
+	name       string
+	inner      iterable.Iterator[E]
+	n          int     // number of elements of the input
+	pos        int     // position of the element the next successful Next hands out
+	handed     []uint8 // how often position p was handed out in this pass
+	pulls      int     // successful Next calls in this pass
+	inReset    bool    // the harness is inside Reset of the outermost mixer
+	bad        string
+	lateResets int  // Reset calls on the input outside Reset of the outermost mixer (recorded only)
+	resetSeen  bool // the input was reset during the current Reset of the outermost mixer
 }
 
 func (p *probe[E]) HasNext() bool { return p.inner.HasNext() }
@@ -221,16 +229,24 @@ func (p *probe[E]) flag(s string) {
 	}
 }
 func (p *probe[E]) doReset() error {
-	if !p.inReset {
-		p.flag("reset-outside-Reset") // the elements handed out so far stay counted: a second pull is flagged
+	// A Reset of the input inside Reset of the outermost mixer starts a new pass. One made at any
+	// other time is not judged by itself (a lazily resetting mixer would be faithful too): the
+	// elements handed out so far stay counted, so pulling one of them again in the same pass is flagged.
+	if p.inReset {
+		p.newPass()
+		p.resetSeen = true
 	} else {
-		for i := range p.handed {
-			p.handed[i] = 0
-		}
-		p.pulls = 0
+		p.lateResets++
 	}
 	p.pos = 0
 	return p.inner.(golibs.Reseter).Reset()
+}
+
+func (p *probe[E]) newPass() {
+	for i := range p.handed {
+		p.handed[i] = 0
+	}
+	p.pulls = 0
 }
 
 type probeR[E any] struct{ *probe[E] }
@@ -289,20 +305,30 @@ func build[E comparable](k kase, mk func(src, idx, v int) E, val func(E) int, le
 		mc := &sliceMod[E]{s: c}
 		r.total += len(c)
 		inner := &iterable.Mixer[E]{}
-		inner.Init(sf, wrap("A", leaf(append([]E(nil), a...)), len(a), true, true), wrap("C", leaf(append([]E(nil), c...)), len(c), true, true))
-		r.top.Init(sf, wrap("inner(A,C)", inner, len(a)+len(c), true, false), wrap("B", leaf(append([]E(nil), b...)), len(b), true, true))
+		inner.Init(sf, wrap("A", leaf(clone(a)), len(a), true, true), wrap("C", leaf(clone(c)), len(c), true, true))
+		r.top.Init(sf, wrap("inner(A,C)", inner, len(a)+len(c), true, false), wrap("B", leaf(clone(b)), len(b), true, true))
 		r.model = &mergeMod[E]{sf: msf, m1: &mergeMod[E]{sf: msf, m1: ma, m2: mc}, m2: mb}
 		r.leaves = []*sliceMod[E]{ma, mb, mc}
 		r.resettable = true
 	default:
 		r1 := k.Kind != kindNR1 && k.Kind != kindNR12
 		r2 := k.Kind != kindNR2 && k.Kind != kindNR12
-		r.top.Init(sf, wrap("A", leaf(append([]E(nil), a...)), len(a), r1, true), wrap("B", leaf(append([]E(nil), b...)), len(b), r2, true))
+		r.top.Init(sf, wrap("A", leaf(clone(a)), len(a), r1, true), wrap("B", leaf(clone(b)), len(b), r2, true))
 		r.model = &mergeMod[E]{sf: msf, m1: ma, m2: mb}
 		r.leaves = []*sliceMod[E]{ma, mb}
 		r.resettable = r1 && r2
 	}
 	return r
+}
+
+// clone copies a slice and keeps the difference between nil and empty.
+func clone[E any](s []E) []E {
+	if s == nil {
+		return nil
+	}
+	out := make([]E, len(s))
+	copy(out, s)
+	return out
 }
 
 func isSorted(s []int) bool { return sort.IntsAreSorted(s) }
@@ -321,7 +347,7 @@ func runCase(k kase, st *stats) *vio {
 			func(s []elem) iterable.Iterator[elem] { return &sliceSrc[elem]{s: s} })
 		return drive(k, r, func(e elem) int { return e.V }, func(e elem) string { return e.String() }, st)
 	}
-	return &vio{"harness/unknown-kind", "unknown kind " + k.Kind}
+	return &vio{sig: "harness/unknown-kind", what: "unknown kind " + k.Kind}
 }
 
 func drive[E comparable](k kase, r *rig[E], val func(E) int, show func(E) string, st *stats) (res *vio) {
@@ -342,17 +368,27 @@ func drive[E comparable](k kase, r *rig[E], val func(E) int, show func(E) string
 	)
 	// messages are built only when something is wrong
 	fail := func(sig, format string, args ...any) *vio {
+		if st.seen != nil {
+			st.seen[sig]++
+			if st.seen[sig] > 1 {
+				st.repeats++
+				return &vio{sig: sig, dup: true}
+			}
+		}
 		parts := make([]string, len(r.leaves))
 		for i := range r.leaves {
 			parts[i] = fmt.Sprint(posBefore[i])
 		}
-		return &vio{sig, fmt.Sprintf("%s call %d %s, model positions before the call (%s): ", section, callIdx, curOp, strings.Join(parts, ",")) + fmt.Sprintf(format, args...)}
+		return &vio{sig: sig, what: fmt.Sprintf("%s call %d %s, model positions before the call (%s): ", section, callIdx, curOp, strings.Join(parts, ",")) + fmt.Sprintf(format, args...)}
 	}
 	defer func() {
 		if p := recover(); p != nil {
 			res = fail("mixer/"+curOp+"/panic", "panic: %v", p)
 		}
 		st.selCalls += *r.selCalls
+		for _, p := range r.probes {
+			st.lateResets += int64(p.lateResets)
+		}
 	}()
 	phase := func() string {
 		if didReset {
@@ -464,11 +500,14 @@ func drive[E comparable](k kase, r *rig[E], val func(E) int, show func(E) string
 				return nil
 			}
 			for _, p := range r.probes {
-				p.inReset = true
+				p.inReset, p.resetSeen = true, false
 			}
 			err := r.top.Reset()
 			for _, p := range r.probes {
 				p.inReset = false
+				if !p.resetSeen {
+					p.newPass() // pass boundary also for an input whose Reset the mixer has postponed
+				}
 			}
 			if err != nil {
 				return fail("mixer/Reset/error-on-resettable", "both inputs reset without error but Reset()=%v", err)
@@ -479,7 +518,7 @@ func drive[E comparable](k kase, r *rig[E], val func(E) int, show func(E) string
 				return v
 			}
 		default:
-			return &vio{"harness/bad-word", fmt.Sprintf("operation %q", op)}
+			return &vio{sig: "harness/bad-word", what: fmt.Sprintf("operation %q", op)}
 		}
 		prevOp = op
 		return nil
@@ -499,7 +538,7 @@ func drive[E comparable](k kase, r *rig[E], val func(E) int, show func(E) string
 			break
 		}
 		if n > r.total {
-			return &vio{"harness/drain-overrun", "the model did not end"}
+			return &vio{sig: "harness/drain-overrun", what: "the model did not end"}
 		}
 		if n%2 == 0 {
 			if v := step('H', "drain", n); v != nil {
@@ -516,11 +555,13 @@ func drive[E comparable](k kase, r *rig[E], val func(E) int, show func(E) string
 			return v
 		}
 	}
-	for _, p := range r.leafProbes {
-		st.srcPulls += int64(p.pulls)
-	}
 	return nil
 }
+
+// lazy is a message that is built only when it is printed.
+type lazy func() string
+
+func (l lazy) String() string { return l() }
 
 func remaining[E comparable](r *rig[E]) int {
 	n := 0
@@ -533,37 +574,37 @@ func remaining[E comparable](r *rig[E]) int {
 // runIntIt compares iterable.WrapIntSlice alone with a slice model. Close ends the pattern (the
 // iterator must not be used afterwards); a pattern without Close is closed at the end.
 func runIntIt(k kase, st *stats) (res *vio) {
-	src := append([]int(nil), k.A...)
-	if k.A == nil {
-		src = nil
-	}
+	src := clone(k.A)
 	it := iterable.WrapIntSlice(src)
 	pos := 0
-	where, curOp := "", "WrapIntSlice"
+	curOp, callIdx, posBefore := "WrapIntSlice", 0, 0
+	where := lazy(func() string {
+		return fmt.Sprintf("slice %v word %s call %d %s (model position %d)", k.A, k.Word, callIdx, curOp, posBefore)
+	})
 	defer func() {
 		if p := recover(); p != nil {
-			res = &vio{"intit/" + curOp + "/panic", fmt.Sprintf("%s: panic: %v", where, p)}
+			res = &vio{sig: "intit/" + curOp + "/panic", what: fmt.Sprintf("%s: panic: %v", where, p)}
 		}
 	}()
 	closed := false
 	for i := 0; i < len(k.Word) && !closed; i++ {
-		where = fmt.Sprintf("slice %v word %s call %d (model position %d)", k.A, k.Word, i, pos)
+		callIdx, posBefore = i, pos
 		st.intitCalls++
 		switch k.Word[i] {
 		case 'H':
 			curOp = "HasNext"
 			if got, want := it.HasNext(), pos < len(k.A); got != want {
-				return &vio{"intit/HasNext", fmt.Sprintf("%s: HasNext()=%v want %v", where, got, want)}
+				return &vio{sig: "intit/HasNext", what: fmt.Sprintf("%s: HasNext()=%v want %v", where, got, want)}
 			}
 		case 'N':
 			curOp = "Next"
 			v, ok := it.Next()
 			if want := pos < len(k.A); ok != want {
-				return &vio{"intit/Next/ok", fmt.Sprintf("%s: Next()=(%d,%v) want ok=%v", where, v, ok, want)}
+				return &vio{sig: "intit/Next/ok", what: fmt.Sprintf("%s: Next()=(%d,%v) want ok=%v", where, v, ok, want)}
 			}
 			if ok {
 				if v != k.A[pos] {
-					return &vio{"intit/Next/value", fmt.Sprintf("%s: Next()=%d want %d", where, v, k.A[pos])}
+					return &vio{sig: "intit/Next/value", what: fmt.Sprintf("%s: Next()=%d want %d", where, v, k.A[pos])}
 				}
 				pos++
 			}
@@ -571,10 +612,10 @@ func runIntIt(k kase, st *stats) (res *vio) {
 			curOp = "Reset"
 			rs, ok := it.(golibs.Reseter)
 			if !ok {
-				return &vio{"intit/Reset/missing", where + ": the iterator has no Reset method"}
+				return &vio{sig: "intit/Reset/missing", what: where.String() + ": the iterator has no Reset method"}
 			}
 			if err := rs.Reset(); err != nil {
-				return &vio{"intit/Reset/error", fmt.Sprintf("%s: Reset()=%v", where, err)}
+				return &vio{sig: "intit/Reset/error", what: fmt.Sprintf("%s: Reset()=%v", where, err)}
 			}
 			pos = 0
 		case 'C':
@@ -584,12 +625,12 @@ func runIntIt(k kase, st *stats) (res *vio) {
 			}
 			closed = true
 		default:
-			return &vio{"harness/bad-word", fmt.Sprintf("operation %q", k.Word[i])}
+			return &vio{sig: "harness/bad-word", what: fmt.Sprintf("operation %q", k.Word[i])}
 		}
 	}
 	if !closed {
 		curOp = "Close"
-		where = fmt.Sprintf("slice %v word %s final Close", k.A, k.Word)
+		callIdx = len(k.Word)
 		if err := it.Close(); err != nil {
 			st.closeErr++
 		}
@@ -597,7 +638,7 @@ func runIntIt(k kase, st *stats) (res *vio) {
 	// the caller's slice is only read
 	for i := range k.A {
 		if src[i] != k.A[i] {
-			return &vio{"intit/slice-modified", fmt.Sprintf("slice %v word %s: the wrapped slice now reads %v", k.A, k.Word, src)}
+			return &vio{sig: "intit/slice-modified", what: fmt.Sprintf("slice %v word %s: the wrapped slice now reads %v", k.A, k.Word, src)}
 		}
 	}
 	return nil
@@ -699,16 +740,16 @@ func sweep(run *report.Run, depth, intitDepth, randomCases int) {
 		wg.Add(1)
 		go func() {
 			defer wg.Done()
-			var local stats
+			local := stats{seen: map[string]int{}}
 			var localDistinct int64
 			for u := range units {
-				var us stats
+				us := stats{seen: local.seen}
 				if u.kind == kindIntIt {
 					seen := map[[2]int]struct{}{}
 					for _, w := range u.words {
 						k := kase{A: u.a, Kind: u.kind, Word: w}
 						run.Eval(1)
-						if v := runCase(k, &us); v != nil {
+						if v := runCase(k, &us); v != nil && !v.dup {
 							run.Violation(v.sig, v.what, k)
 						}
 						pos := 0
@@ -727,7 +768,7 @@ func sweep(run *report.Run, depth, intitDepth, randomCases int) {
 					for _, w := range u.words {
 						k := kase{A: u.a, B: u.b, Sel: u.sel, Kind: u.kind, Word: w, Drain: true}
 						run.Eval(1)
-						if v := runCase(k, &us); v != nil {
+						if v := runCase(k, &us); v != nil && !v.dup {
 							run.Violation(v.sig, v.what, k)
 						}
 					}
@@ -824,8 +865,10 @@ func sweep(run *report.Run, depth, intitDepth, randomCases int) {
 	run.Add("reset_non_resettable_nil", total.resetNR[1])
 	run.Add("reset_non_resettable_panic", total.resetNR[2])
 	run.Add("max_lookahead_elements", total.maxAhead)
+	run.Add("input_resets_outside_mixer_Reset", total.lateResets)
 	run.Add("intit_calls", total.intitCalls)
 	run.Add("intit_close_errors", total.closeErr)
+	run.Add("repeated_findings_not_reported_again", total.repeats)
 	if total.calls[2] == 0 || total.exhausted == 0 || total.intitCalls == 0 {
 		run.Inconclusive("a call class was never executed (Reset / exhausted mixer / WrapIntSlice)")
 	}
